@@ -413,8 +413,12 @@ func (ex *Exec) runDeferred(f *frame, st *State, d deferred) {
 	sub := st.clone()
 	sub.reach = and(st.reach, d.guard)
 	ex.callWith(f, sub, d.instr, d.call, nil, d.args)
+	// the path continues only where the deferred call returned (an inlined deferred closure that re-panics ends it)
+	if sub.reach.S != and(before.reach, d.guard).S {
+		st.reach = ex.sc.define(ex.sc.freshName(f.pfx+"reach:defer"), or(and(d.guard, sub.reach), and(not(d.guard), before.reach)))
+	}
 	// merge: guard ? sub : before
-	if d.guard.S == st.reach.S || d.guard.S == "true" {
+	if d.guard.S == before.reach.S || d.guard.S == "true" {
 		st.heap = sub.heap
 		return
 	}
